@@ -971,10 +971,22 @@ def _add_data_producers():
                 calc_rdm_unbalanced(obj, method=method, descriptor=None if o['a'][5] % 3 == 0 else 'cond', cv_descriptor=cvd)
             elif variant == 2:
                 name = 'noise[cov/prec]'
-                N.cov_from_measurements(obj, obs_desc='cond', method=['shrinkage_eye', 'shrinkage_diag', 'diag', 'full'][o['a'][2] % 4])
-                N.prec_from_measurements(obj, obs_desc='cond', method='shrinkage_eye')
-                N.cov_from_unbalanced(obj, obs_desc='cond')
-                N.prec_from_unbalanced(obj, obs_desc='cond')
+                nok = 0
+                for call in (lambda: N.cov_from_measurements(obj, obs_desc='cond', method=['shrinkage_eye', 'shrinkage_diag', 'diag', 'full'][o['a'][2] % 4]),
+                             lambda: N.prec_from_measurements(obj, obs_desc='cond', method='shrinkage_eye'),
+                             lambda: N.cov_from_unbalanced(obj, obs_desc='cond'),
+                             lambda: N.prec_from_unbalanced(obj, obs_desc='cond'),
+                             lambda: N.cov_from_measurements(obj, obs_desc='cond', dof=max(1, obj.n_obs - 2))):
+                    try:
+                        call()
+                        nok += 1
+                    except (ImportError, NameError):
+                        raise
+                    except Exception:
+                        pass
+                self.ctx.probe('noise_estimators_ok', nok)
+                if nok == 0:
+                    raise ValueError('no noise estimator accepted the data')
             elif variant == 3:
                 name = f'calc_rdm[list,{method}]'
                 calc_rdm([obj, obj.copy()], method=method, descriptor='cond', cv_descriptor=cvd)
@@ -1005,6 +1017,8 @@ def _add_data_producers():
             raise HarnessError(f'producer {name}: {e!r}')
         except Exception:
             self.ctx.probe('producer_raised:' + name.split('[')[0])
+        else:
+            self.ctx.probe('producer_ok:' + name.split('[')[0])
         self.pool.sweep(name, args=[src.sid])
         self.ctx.behaviour(name, cvd, src.op)
     DataOps.op_calc_rdm = op_calc_rdm
